@@ -38,3 +38,15 @@ void h_next_run(void) {
   size_t r = _mi_commit_mask_next_run(cm, idx);
   VC_REACH();
 }
+void h_commit(void) {
+  g_pstart = vc_nondet_size("g_pstart"); g_w = vc_nondet_size("g_w");
+  mi_segment_t* s; uint8_t* p;
+  bool r = mi_segment_commit(s, p, vc_nondet_size("size"));
+  VC_REACH();
+}
+void h_ensure_committed(void) {
+  g_pstart = vc_nondet_size("g_pstart"); g_w = vc_nondet_size("g_w"); g_seg_commit_ret = vc_nondet_bool("g_seg_commit_ret");
+  mi_segment_t* s; uint8_t* p;
+  bool r = mi_segment_ensure_committed(s, p, vc_nondet_size("size"));
+  VC_REACH();
+}
